@@ -143,7 +143,7 @@ theorem decPeppiJ_noPanic (b : Bytes) (s : String) : decPeppiJ b ≠ .panic s :=
 
 /-- any codec with its `peppi.json` and `metadata.json` parts replaced by the JSON text models: two of the three round-trip
     laws are then theorems -/
-def Codec.withJson (C : Codec KVs) : Codec KVs :=
+def Codec.withJson {φ : Type} (C : Codec KVs φ) : Codec KVs φ :=
   { C.withJsonMeta with encPeppi := encPeppiJ, decPeppi := decPeppiJ, peppi_rt := decPeppiJ_enc }
 
 #print axioms decPeppiJ_encV
